@@ -1120,3 +1120,41 @@ _RATE = [(UTILS, 'LoggerFileProxy.flush', "        if self.bufs:\n", "        if
 silent('r7-flush-dormant-switch', ['C19'], *_RATE)
 fire('r7-flush-switch-turned-on-by-worker', ['C19'], 'C19.EMIT-THEN-CLEAR', *_RATE,
      (PROC, 'ProcessRunner._subprocess_func', "        sys.stderr = LoggerFileProxy(logger.error, 'Captured STDERR:\\n')  # type: ignore[assignment]\n", "        sys.stderr = LoggerFileProxy(logger.error, 'Captured STDERR:\\n')  # type: ignore[assignment]\n        sys.stderr.muted = 1\n"))
+
+
+# -- canonicalisation added after the medium-sized representative round: a defect must survive it -----------------------------
+BASEPY = 'labtech/runners/base.py'
+SERIAL = 'labtech/runners/serial.py'
+DIAG = 'labtech/diagram.py'
+_ATTACH_LOOP_P = "            for dependency_task in get_direct_dependency_instances(task):\n                dependency_task._set_results_map(results_map)\n"
+_ATTACH_LOOP_S = "            for dependency_task in get_direct_dependency_instances(task):\n                dependency_task._set_results_map(self.results_map)\n"
+fire('g-shared-public-helper-loses-instances', ['C01', 'C02'], 'C01.DEP-MAP-ATTACH',
+     (BASEPY, None, "def run_or_load_task(", "def attach_dependency_results(task, results_map):\n    for dependency_task in get_direct_dependencies(task):\n        dependency_task._set_results_map(results_map)\n\n\ndef run_or_load_task("),
+     (BASEPY, None, "from labtech.tasks import is_task\n", "from labtech.tasks import get_direct_dependencies, is_task\n"),
+     (PROC, 'ProcessRunner._subprocess_func', _ATTACH_LOOP_P, "            attach_dependency_results(task, results_map)\n"),
+     (PROC, None, "from .base import run_or_load_task", "from .base import attach_dependency_results, run_or_load_task"),
+     (SERIAL, 'SerialRunner.wait', _ATTACH_LOOP_S, "            attach_dependency_results(task, self.results_map)\n"),
+     (SERIAL, None, "from labtech.runners.base import run_or_load_task", "from labtech.runners.base import attach_dependency_results, run_or_load_task"))
+_CT_OLD = ("        keys = self._storage.find_keys()\n        tasks = []\n        for key in keys:\n" + _INNER + "        return tasks\n")
+fire('g-listed-generator-without-break', ['C09', 'C08'], 'C09.LOOP',
+     (LAB, 'Lab.cached_tasks', _CT_OLD, "        return list(self._iter_cached(task_types))\n"),
+     (LAB, None, "    def is_cached(self, task: Task) -> bool:", "    def _iter_cached(self, task_types):\n        for key in self._storage.find_keys():\n            for task_type in task_types:\n                try:\n                    found = task_type._lt.cache.load_task(self._storage, task_type, key)\n                except TaskNotFound:\n                    continue\n                yield found\n\n    def is_cached(self, task: Task) -> bool:"))
+silent('g-listed-generator', ['C09', 'C08'],
+       (LAB, 'Lab.cached_tasks', _CT_OLD, "        return list(self._iter_cached(task_types))\n"),
+       (LAB, None, "    def is_cached(self, task: Task) -> bool:", "    def _iter_cached(self, task_types):\n        for key in self._storage.find_keys():\n            for task_type in task_types:\n                try:\n                    found = task_type._lt.cache.load_task(self._storage, task_type, key)\n                except TaskNotFound:\n                    continue\n                yield found\n                break\n\n    def is_cached(self, task: Task) -> bool:"))
+fire('g-named-prefix-drops-the-cache-prefix', ['C09', 'C08'], 'C09.KEY-FORMAT-AGREE',
+     (CACHE, 'BaseCache.load_metadata', "        if not key.startswith(f'{self.KEY_PREFIX}{task_type.__qualname__}'):", "        expected_key_prefix = f'{task_type.__qualname__}'\n        if not key.startswith(expected_key_prefix):"))
+silent('g-named-prefix', ['C09', 'C08', 'C06', 'C07'],
+       (CACHE, 'BaseCache.load_metadata', "        if not key.startswith(f'{self.KEY_PREFIX}{task_type.__qualname__}'):", "        expected_key_prefix = f'{self.KEY_PREFIX}{task_type.__qualname__}'\n        if not key.startswith(expected_key_prefix):"))
+_STORAGE_OLD = "        if isinstance(storage, str) or isinstance(storage, Path):\n            storage = LocalStorage(storage)\n        elif storage is None:\n            storage = NullStorage()\n        self._storage = storage\n"
+fire('g-decision-helper-none-maps-to-local-dir', ['C08'], 'C08.NULL-INERT',
+     (LAB, 'Lab.__init__', _STORAGE_OLD, "        self._storage = _build_storage(storage)\n"),
+     (LAB, None, "class TaskState:", "def _build_storage(storage):\n    if isinstance(storage, str) or isinstance(storage, Path):\n        return LocalStorage(storage)\n    if storage is None:\n        return LocalStorage('.')\n    return storage\n\n\nclass TaskState:"))
+silent('g-decision-helper', ['C08', 'C06', 'C16', 'C03'],
+       (LAB, 'Lab.__init__', _STORAGE_OLD, "        self._storage = _build_storage(storage)\n"),
+       (LAB, None, "class TaskState:", "def _build_storage(storage):\n    if isinstance(storage, str) or isinstance(storage, Path):\n        return LocalStorage(storage)\n    if storage is None:\n        return NullStorage()\n    return storage\n\n\nclass TaskState:"))
+fire('g-relay-accumulator-filters-seen-types', ['C20'], 'C20.WORKLIST-CLOSURE',
+     (DIAG, 'TaskStructure.build', "                found_tasks += sub_tasks", "                all_sub_tasks += [t for t in sub_tasks if type(t) not in task_structure.task_type_to_rels]"),
+     (DIAG, 'TaskStructure.build', "            # Search for sub_tasks in each param/field of the task\n", "            all_sub_tasks = []\n"),
+     (DIAG, 'TaskStructure.build', "                # Add the tasks to the list of tasks to work through\n", ""),
+     (DIAG, 'TaskStructure.build', "                all_sub_tasks += [t for t in sub_tasks if type(t) not in task_structure.task_type_to_rels]", "                all_sub_tasks += [t for t in sub_tasks if type(t) not in task_structure.task_type_to_rels]\n            found_tasks += all_sub_tasks"))
